@@ -45,4 +45,4 @@ Lemma C08_cfg_ok : cfg_ok_C08.
 Proof. repeat split; reflexivity. Qed.
 
 Example C08_example : msg_wf {| mty := -128; mcid := -2147483648; mdata := [0; 255; 10] |}.
-Proof. unfold msg_wf, byte_ok; cbn. repeat split; try lia. repeat constructor; lia. Qed.
+Proof. unfold msg_wf; cbn. repeat split; lia. Qed.
